@@ -2,6 +2,7 @@ import OxiddModel.Util.Proto
 import OxiddModel.Bdd.Driver
 import OxiddModel.HashTbl.Driver
 import OxiddModel.Mtbdd.Driver
+import OxiddModel.Tdd.Driver
 import OxiddModel.Circuit.Driver
 
 open OxiddModel
@@ -13,6 +14,7 @@ def protos : List (String × Proto) := [
   ("bdd", OxiddModel.Bdd.proto),
   ("tbl", OxiddModel.HashTbl.proto),
   ("mtbdd", OxiddModel.Mtbdd.proto),
+  ("tdd", OxiddModel.Tdd.proto),
   ("circ", OxiddModel.Circuit.proto)
 ]
 
